@@ -729,7 +729,7 @@ fn tier_params(tier: &str, prop: &str) -> (u64, u64) {
     // (games per shard, stride of the sampled big families) for 16 shards
     let heavy = matches!(prop, "C11" | "C12" | "C20" | "C04" | "C05");
     match tier {
-        "thorough" => (if heavy { 9000 } else { 14000 }, 1),
+        "thorough" => (if heavy { 24000 } else { 45000 }, 1),
         _ => (if heavy { 700 } else { 1000 }, 16),
     }
 }
